@@ -96,7 +96,8 @@ out += ["", "Changes that were missed at first and what was strengthened:", "",
         "  back as NULL: reported instead of crashing the harness), `C10_r5m1` (filter callback applied before the length clip: C17 reads through `ov_read_filter` with a halving filter), `C07_r5m2` (EOS of a foreign stream in mid-link",
         "  ends the Vorbis link for a byte seek: C09 ends foreign streams in mid-link and judges 40 byte seeks per multiplexed chain), `C09_r5m1` (bisection stalls on maximum-size pages: a 100-200 KB comment in a later link),",
         "  `C06_r5m2` (end trim taken from the front when the only granule position is on the final packet: a third of the C06 decodes use that convention and the last 2048 samples are judged on their own).",
-        "  Not detected by any check: `C18_r5m2` (uninitialised lap buffer for a time-based lapped seek from an unprimed handle at the end of the data - the pipeline added for it does not reach the state), `C19_r5m1` (lap data",
+        "  `C18_r5m2` (uninitialised lap buffer for a time-based lapped seek from an unprimed handle at the end of the data) needed that exact state: the lapped-seek pipeline of C18 now ends with it on the single-link stream,",
+        "  with the stack poisoned before the call. Not detected by any check: `C19_r5m1` (lap data",
         "  from the wrong place when the old handle sits at the end of a trimmed stream - C19 does not judge the lapped region's content for old positions at the end of the stream, where 'the audio that would have been read next'",
         "  is the decoder's hidden tail). `C03_r5m2` (endless discard loop in `ov_pcm_seek` on a phantom tail followed by an undecodable link) needed undecodable links and overstated final granule positions in C03; the",
         "  combination comes up in the thorough tier (reported there as `crash:cpu-budget:during pcm_seek`), not in a quick run. `C15_r5m2` is outside the property as stated (section 13).",
